@@ -91,16 +91,17 @@ POSITIONS = {
     "intersect-base-function": lambda p, Q, t, v: p.call(p.call(p.call(Q, "from_", t), "select", p.new("fn.Coalesce", p.call(t, "field", "a"), v)), "intersect", _sel(p, Q, t)),
     "json-term": lambda p, Q, t, v: p.call(p.call(Q, "from_", t), "select", p.new("JSON", v)),
     "json-contains": lambda p, Q, t, v: p.call(_sel(p, Q, t), "where", p.call(p.new("JSON", v), "contains", p.call(t, "field", "j"))),
+    "load-file-name": lambda p, Q, t, v: p.call(p.call(Q, "load", v), "into", t),
     "limit": lambda p, Q, t, v: p.call(_sel(p, Q, t), "limit", v),
     "offset": lambda p, Q, t, v: p.call(p.call(_sel(p, Q, t), "limit", 5), "offset", v),
     "returning": lambda p, Q, t, v: p.call(p.call(p.call(Q, "into", t), "insert", 1), "returning", v),
     "mysql-on-duplicate": lambda p, Q, t, v: p.call(p.call(p.call(p.call(Q, "into", t), "insert", 1), "on_conflict"), "do_update", "a", v),
 }
-STR_ONLY = {"where-like"}
+STR_ONLY = {"where-like", "load-file-name"}
 INT_ONLY = {"limit", "offset"}
 JSON_ONLY = {"json-term", "json-contains"}
 PG_ONLY = {"returning"}
-MYSQL_ONLY = {"mysql-on-duplicate"}
+MYSQL_ONLY = {"mysql-on-duplicate", "load-file-name"}
 NOT_FOR = {  # positions whose API does not take the kind as a value
     "none": {"do-update", "mysql-on-duplicate", "select-only", "replace", "column-default"},  # default=None: no default  # do_update(field, None) means EXCLUDED; insert(None) skipped
     "json": {"where-in", "insert-rows", "tuple", "arithmetic", "insert", "replace"},  # lists are row/array syntax there
@@ -110,6 +111,8 @@ LIST_AS_ARRAY = {"select", "select-only", "where-eq", "where-ne", "where-lt", "w
 
 
 def applicable(pos, kind, d, v=None):
+    if pos == "load-file-name":
+        return kind == "str" and d == "MySQLQuery" and bool(v)  # (without a file name the builder is incomplete and renders nothing)
     if pos in STR_ONLY:
         return kind == "str"
     if pos in ("select", "select-only", "union-operand", "returning") and (kind == "str" or isinstance(v, str)):
